@@ -136,6 +136,15 @@ Proof. unfold h_same. destruct (f (to_comp h c)); [|discriminate]. intros [= <- 
 Lemma nth_error_set_nth_same {A} (l : list A) n x : (n < length l)%nat -> nth_error (set_nth l n x) n = Some x.
 Proof. revert n; induction l as [|y l IH]; intros [|n] H; cbn [length] in H; try lia; cbn [set_nth nth_error]; [reflexivity|]. apply IH. lia. Qed.
 
+Lemma h_drop_empty_scoped h0 c0 t b h1 c1 :
+  h_drop_empty h0 c0 t b = (h1, c1) -> scoped h0 (hid c0) -> scoped h1 (hid c1).
+Proof.
+  unfold h_drop_empty. destruct (((0 <? t) || (0 <? b)) && (shards_rows (deref h0 (hid c0)) =? 0)).
+  - destruct (alloc_outer h0 []) as [h2 id] eqn:E. intros [= <- <-] _. cbn [hid].
+    eapply alloc_outer_scoped; [exact E|constructor].
+  - intros [= <- <-] S. exact S.
+Qed.
+
 Lemma h_pad_tb_scoped h c t b h' c' : h_pad_trim_top_bottom h c t b = Ok (h', c') -> scoped h (hid c) -> scoped h' (hid c').
 Proof.
   unfold h_pad_trim_top_bottom. destruct (hfin c); [discriminate|]. intros H S.
@@ -143,8 +152,10 @@ Proof.
                          then h_trim h c (Z.max 0 (- t)) (Some (shards_rows (deref h (hid c)) - Z.max 0 (- t) - Z.max 0 (- b)))
                          else Ok (h, c)) = Ok (h1, c1) -> scoped h1 (hid c1)) as Ha.
   { intros h1 c1. destruct ((t <? 0) || (b <? 0)); [intros E; eapply h_trim_scoped; eauto|intros [= <- <-]; exact S]. }
-  destruct (if (t <? 0) || (b <? 0) then _ else _) as [[h1 c1]|e]; [|discriminate]. specialize (Ha h1 c1 eq_refl).
-  set (cols := shards_cols (deref h1 (hid c1))) in *.
+  destruct (if (t <? 0) || (b <? 0) then _ else _) as [[h0 c0]|e]; [|discriminate]. specialize (Ha h0 c0 eq_refl).
+  set (cols := shards_cols (deref h0 (hid c0))) in *.
+  destruct (h_drop_empty h0 c0 t b) as [h1 c1] eqn:Ed.
+  pose proof (h_drop_empty_scoped _ _ _ _ _ _ Ed Ha) as Ha1. clear Ha. rename Ha1 into Ha.
   assert (exists h2 c2, (if 0 <? t
                          then let '(h'0, id) := alloc_outer h1 ((t, IFresh (blank_cvs cols t)) :: shared (get_outer h1 (hid c1))) in
                               (h'0, HC id (translate_coords (hcoords c1) 0 t) false)
